@@ -247,29 +247,38 @@ theorem reject_iff (o : Oracle) (us : List User) (r : Req) :
   unfold authenticate
   cases authInternal o r us <;> simp
 
+theorem permGrants_eq (o : Oracle) (p : Perm) (a path : Bytes) :
+    permGrants o p a path = permMatches o p a path := by
+  unfold permGrants permMatches
+  by_cases ha : p.action = a
+  · rw [ha]
+    simp only [beq_self_eq_true, Bool.true_and, if_true]
+    cases isPathAction a
+    · simp
+    · simp only [Bool.not_true, Bool.false_or, if_true]
+      cases hp : p.path with
+      | nil => simp
+      | cons c pat =>
+        by_cases hc : c = tilde
+        · subst hc
+          cases hre : o.regexFind pat path with
+          | none => simp [hre]
+          | some b => cases b <;> simp [hre]
+        · have hb : (c == tilde) = false := beq_eq_false_iff_ne.mpr hc
+          rw [Bool.eq_iff_iff]
+          simp [hc, hb]
+  · simp [ha]
+
+/-- the executable "grants" of the spec is the code's `matchesPermission` -/
+theorem matchesPermission_eq_anyGrants (o : Oracle) (perms : List Perm) (a path : Bytes) :
+    matchesPermission o perms a path = perms.any (permGrants o · a path) := by
+  rw [matchesPermission_eq_any]
+  simp only [permGrants_eq]
+
 /-- the executable spec used by the driver is the right-hand side of `auth_iff` -/
 theorem userAdmits_iff (o : Oracle) (r : Req) (u : User) : userAdmits o r u = true ↔ Admits o r u := by
-  have hperm : ∀ p : Perm, permGrants o p r.action r.path = permMatches o p r.action r.path := by
-    intro p
-    unfold permGrants permMatches
-    by_cases ha : p.action = r.action
-    · rw [ha]
-      simp only [beq_self_eq_true, Bool.true_and, if_true]
-      cases isPathAction r.action
-      · simp
-      · simp only [Bool.not_true, Bool.false_or, if_true]
-        cases hp : p.path with
-        | nil => simp
-        | cons c pat =>
-          by_cases hc : c = tilde
-          · subst hc
-            cases hre : o.regexFind pat r.path with
-            | none => simp [hre]
-            | some b => cases b <;> simp [hre]
-          · have hb : (c == tilde) = false := beq_eq_false_iff_ne.mpr hc
-            rw [Bool.eq_iff_iff]
-            simp [hc, hb]
-    · simp [ha]
+  have hperm : ∀ p : Perm, permGrants o p r.action r.path = permMatches o p r.action r.path :=
+    fun p => permGrants_eq o p r.action r.path
   have hcred : ∀ d g, credMatches o d g = credCheck o d g := by
     intro d g
     unfold credMatches credCheck
@@ -580,6 +589,71 @@ theorem unmarshal_wellformed (cidr : Option IPNet) (pip : Option Bytes) (n : Nat
         refine ⟨⟨p, cidrMask 128 16⟩, 128, by simp [hto], Or.inr ⟨h16, hto⟩, ?_⟩
         show cidrMask 128 16 = cidrMask 128 p.length
         rw [h16]
+
+/-- containment only depends on the (network number, mask) pair -/
+theorem contains_of_nnm (a b : IPNet) (ip : Bytes) (h : networkNumberAndMask a = networkNumberAndMask b) :
+    ipnetContains a ip = ipnetContains b ip := by
+  unfold ipnetContains
+  rw [h]
+
+theorem unm_cidr_v6 {c : IPNet} (pip : Option Bytes) (h : to4 c.ip = none) :
+    unmarshalIPNet (some c) pip = .ok c := by
+  simp [unmarshalIPNet, h]
+
+theorem unm_cidr_v4 {c : IPNet} {v4 : Bytes} (pip : Option Bytes) (h : to4 c.ip = some v4)
+    (hl : ¬ c.mask.length < 4) :
+    unmarshalIPNet (some c) pip = .ok ⟨v4, c.mask.drop (c.mask.length - 4)⟩ := by
+  simp [unmarshalIPNet, h, hl]
+
+theorem nnm_collapse {c : IPNet} {v4 : Bytes} (hto : to4 c.ip = some v4)
+    (hm : c.mask.length = 4 ∨ c.mask.length = 16) :
+    networkNumberAndMask ⟨v4, c.mask.drop (c.mask.length - 4)⟩ = networkNumberAndMask c := by
+  have h4 := to4_length hto
+  have hv : to4 v4 = some v4 := by simp [to4, h4]
+  unfold networkNumberAndMask netIP
+  simp only [hv, hto]
+  rcases hm with hm | hm <;> simp [hm, h4]
+
+/-- **the glue preserves meaning**: the network stored by `IPNetwork.UnmarshalJSON` contains exactly
+the client addresses that the `net.ParseCIDR` result contains (v4-mapped CIDRs are collapsed to 4
+bytes with the last 4 mask bytes). -/
+theorem unmarshal_equiv (c : IPNet) (pip : Option Bytes) (hm : c.mask.length = 4 ∨ c.mask.length = 16) :
+    ∃ n, unmarshalIPNet (some c) pip = .ok n ∧ ∀ ip, ipnetContains n ip = ipnetContains c ip := by
+  cases hto : to4 c.ip with
+  | none => exact ⟨c, unm_cidr_v6 pip hto, fun _ => rfl⟩
+  | some v4 =>
+    exact ⟨_, unm_cidr_v4 pip hto (by omega), fun ip => contains_of_nnm _ _ ip (nnm_collapse hto hm)⟩
+
+/-- the model's answer always satisfies the glue spec evaluated by the driver -/
+theorem unmarshal_conforms (c : Option IPNet) (pip : Option Bytes)
+    (hm : ∀ x, c = some x → x.mask.length = 4 ∨ x.mask.length = 16)
+    (hp : ∀ a, pip = some a → a.length = 16) :
+    specIPNet c pip (unmarshalIPNet c pip) = none := by
+  cases c with
+  | some x =>
+    have hm' := hm x rfl
+    cases hto : to4 x.ip with
+    | none => rw [unm_cidr_v6 pip hto]; simp [specIPNet]
+    | some v4 =>
+      rw [unm_cidr_v4 pip hto (by omega)]
+      simp [specIPNet, nnm_collapse hto hm']
+  | none =>
+    cases pip with
+    | none => rfl
+    | some a =>
+      have h16 := hp a rfl
+      cases hto : to4 a with
+      | none => simp [unmarshalIPNet, specIPNet, hto, h16]
+      | some v4 =>
+        have h4 := to4_length hto
+        have hv : to4 v4 = some v4 := by simp [to4, h4]
+        have : networkNumberAndMask ⟨v4, cidrMask 32 4⟩ =
+            networkNumberAndMask ⟨a, cidrMask (8 * a.length) a.length⟩ := by
+          unfold networkNumberAndMask netIP
+          simp only [hv, hto, h16, cidrMask_length]
+          simp [h4]
+          decide
+        simp [unmarshalIPNet, specIPNet, hto, this]
 
 /-! ### the `~` corner: literal reading of "equal path"
 
